@@ -13,6 +13,7 @@ import Hts.Lemmas.IndexIOTabix
 import Hts.Lemmas.IndexTabixNames
 import Hts.Lemmas.IndexIOCsi
 import Hts.Lemmas.IndexStats
+import Hts.Lemmas.IndexRepr
 import Hts.Props.C04
 namespace Hts.Props.C15
 open Hts.Model Hts.Model.Index Hts.Model.IndexIO
@@ -86,6 +87,50 @@ theorem bai_chunks_complete_after_roundtrip (recs : List Bai.BaiRec)
   refine ⟨norm (Hts.Props.C04.baiBuilt recs), readBai_writeBai _ hwf hne, ?_⟩
   rw [bai_chunks_norm]
   exact (Hts.Props.C04.bai_chunks_complete recs h r hr hp beg stop hb hq hs29 hov1 hov2 id s encLaw_id hs).1
+
+/-- every index built by `Add` from a coordinate-sorted input is representable (`WF`), under
+hypotheses on the INPUT only: fewer than 2^31 - 1 records, reference ids below 2^31 - 1, bin numbers as
+produced by `BinFor`/`Record.Bin` (below the pseudo-bin number), chunk offsets below 2^63 -/
+theorem built_wf (recs : List Rec) (h : SortedInput recs) (hlen : recs.length < 2147483647)
+    (hrid : ∀ r, r ∈ recs → r.rid < 2147483647)
+    (hbin : ∀ r, r ∈ recs → r.placed = true → r.bin < 37450)
+    (hoff : ∀ r, r ∈ recs → r.chunk.e < 9223372036854775808) : WF (addAll {} recs).1 :=
+  IndexIO.built_wf recs h hlen hrid hbin hoff
+
+/-- BAI end to end, hypotheses on the input only: the index built from any coordinate-sorted sequence
+of `sam.Record`s with at least one placed record is written, read back as its canonical form, and
+written again to identical bytes -/
+theorem bai_roundtrip_built (recs : List Bai.BaiRec) (h : SortedInput (recs.map Hts.Props.C04.baiRec))
+    (hlen : recs.length < 2147483647) (hrid : ∀ r, r ∈ recs → r.rid < 2147483647)
+    (hoff : ∀ r, r ∈ recs → r.chunk.e < 9223372036854775808)
+    (hplaced : ∃ r, r ∈ recs ∧ (Hts.Props.C04.baiRec r).placed = true) :
+    readBai (writeBai (Hts.Props.C04.baiBuilt recs)) = .ok (some (norm (Hts.Props.C04.baiBuilt recs))) ∧
+      writeBai (norm (Hts.Props.C04.baiBuilt recs)) = writeBai (Hts.Props.C04.baiBuilt recs) := by
+  have hwf : WF (Hts.Props.C04.baiBuilt recs) := by
+    apply IndexIO.built_wf _ h (by simpa using hlen)
+    · intro x hx
+      obtain ⟨r, hr, rfl⟩ := List.mem_map.1 hx
+      show (if r.hasRef then r.rid else -1) < _
+      have := hrid r hr
+      split <;> omega
+    · intro x hx hp
+      obtain ⟨r, hr, rfl⟩ := List.mem_map.1 hx
+      have hok := h.ok _ (List.mem_map.2 ⟨r, hr, rfl⟩)
+      obtain ⟨h0, _⟩ := hok.pos hp
+      have hv := hok.vstart
+      simp only [validPos, Bool.and_eq_true, decide_eq_true_eq] at hv
+      exact binFor_lt _ _ h0 (by have := hv.2; show r.pos < _; have : (Hts.Props.C04.baiRec r).start = r.pos := rfl; omega)
+    · intro x hx
+      obtain ⟨r, hr, rfl⟩ := List.mem_map.1 hx
+      exact hoff r hr
+  obtain ⟨r, hr, hp⟩ := hplaced
+  have hmem : Hts.Props.C04.baiRec r ∈ recs.map Hts.Props.C04.baiRec := List.mem_map.2 ⟨r, hr, rfl⟩
+  obtain ⟨ref, href, _⟩ := Hts.Props.C04.bins_inv _ h _ hmem hp
+  have hne : (Hts.Props.C04.baiBuilt recs).refs ≠ [] := by
+    intro he
+    unfold Hts.Props.C04.baiBuilt Hts.Props.C04.built at he
+    rw [he] at href; simp at href
+  exact ⟨readBai_writeBai _ hwf hne, writeBai_norm _⟩
 
 /-! ### tabix: header fields, name block, index body -/
 
